@@ -385,6 +385,8 @@ Section Describe.
     _ <- validate_in i ;;
     _ <- match i_witness i, i_redeem i with Some _, Some _ => Err | _, _ => Ok tt end ;;
     s <- pick_script (i_witness i) (i_redeem i) ;;
+    (* fix 786fa3c: an input with neither UTXO record has nothing its script could be checked against *)
+    _ <- check (is_some (i_prev_tx i) || is_some (i_prev_out i)) ;;
     _ <- check (zlen hm =? zlen (i_pubs i)) ;;
     '(m, n) <- quorum_of s ;;
     _ <- match qm with None => Ok tt | Some m0 => check (m0 =? m) end ;;
